@@ -120,6 +120,7 @@ Pad(T, v) ==
   ELSE CASE T.k = "native" -> v
     [] T.k \in {"list", "set", "vector"} -> [k |-> "seq", vs |-> [i \in 1..Len(v.vs) |-> Pad(T.e, v.vs[i])]]
     [] T.k = "map" -> [k |-> "map", kvs |-> [i \in 1..Len(v.kvs) |-> <<Pad(T.a, v.kvs[i][1]), Pad(T.b, v.kvs[i][2])>>]]
-    [] T.k = "tuple" -> [k |-> "tup", vs |-> [i \in 1..Len(T.ts) |-> IF i <= Len(v.vs) THEN Pad(T.ts[i], v.vs[i]) ELSE Null]]
+    [] T.k = "tuple" -> IF Len(v.vs) = 0 /\ Len(T.ts) > 0 THEN [k |-> "empty"]     \* a zero-length tuple cell IS the 'empty' value on the wire
+                        ELSE [k |-> "tup", vs |-> [i \in 1..Len(T.ts) |-> IF i <= Len(v.vs) THEN Pad(T.ts[i], v.vs[i]) ELSE Null]]
     [] T.k = "udt" -> [k |-> "udt", vs |-> [i \in 1..Len(T.fs) |-> IF i <= Len(v.vs) THEN Pad(T.fs[i].t, v.vs[i]) ELSE Null]]
 =============================================================================
